@@ -738,7 +738,7 @@ def check_C17(ctx):
         ctx.report(nt_sig(f), "%s %s (%s, %s): %s: %s" % (f.get("ty", ""), f["op"], f.get("engine", ""), f.get("shape", ""), f["dev"], f["msg"]),
                    {"op": f["op"], "type": f.get("ty"), "input": f.get("input"), "engine": f.get("engine"), "observed": f["msg"]})
     # negative control: corrupted rows must be rejected
-    prow = next(r for r in frows if r[0] == "P" and r[3] != 0 and r[1] == "Int64")
+    prow = next(r for r in frows if r[0] == "P" and r[3] != 0 and r[1] == "Int64" and len(r[3]["d"]) > 3)
     srow = next(r for r in frows if r[0] == "S" and r[1] == "Fix64" and len(r[3]) > 3)
     brow = next(r for r in frows if r[0] == "B" and r[1] == "Int32" and len(r[2]) == 5)
     c1 = json.loads(json.dumps(prow)); c1[3]["d"][-1] = (c1[3]["d"][-1] + 1) % 10
